@@ -9,7 +9,7 @@
     are calls recorded on the trace of the synthetic record [world]; what mapFn returns is an oracle on the trace. *)
 From Coq Require Import NArith ZArith Lia List Bool String.
 From Coq Require Import ZifyBool ZifyN ZifyNat.
-From FF Require Import Lib.Word Lib.GoOps Lib.GoOpsProofs Lib.GoStruct Gen.Consts_device_acpi Gen.Trans_acpi_driver.
+From FF Require Import Lib.Word Lib.GoOps Lib.GoOpsProofs Lib.GoStruct Gen.Consts_device_acpi Acpi.TransEnv Gen.Trans_acpi_driver.
 From FF Require Import Acpi.Model Acpi.Spec Acpi.BytesProofs Acpi.ProbeProofs.
 Import ListNotations.
 Local Open Scope N_scope.
@@ -624,4 +624,557 @@ Proof.
   intros m tr0 ptr len fuel Hp Hl Hf. rewrite validTable_is_translation by assumption.
   rewrite <- validTable_true, <- validTable_false.
   destruct (validTable m ptr len) as [[|]|a]; split; split; intros H; try reflexivity; try discriminate H; inversion H.
+Qed.
+
+(** ---- mapACPITable ---- *)
+Definition ev_idmap (c : idcall) : gcall := let '(f, sz, fl) := c in GCall "identityMapFn" [GNum f; GNum sz; GNum fl].
+
+Definition is_idmap (c : gcall) : bool := match c with GCall n _ => String.eqb n "identityMapFn" end.
+Definition n_idmap (tr : list gcall) : N := N.of_nat (List.length (filter is_idmap tr)).
+
+(** the identityMapFn of the model's environment: returns the page of the frame it is given (identity mapping) and fails
+    at the calls [fail] selects (numbered from 0 over the identityMapFn calls on the trace) *)
+Definition o_idmap (fail : N -> bool) (tr : list gcall) : N * option string :=
+  match tr with
+  | GCall _ (GNum f :: _) :: _ => (f, if fail (n_idmap tr - 1) then Some "errMap"%string else None)
+  | _ => (0, None)
+  end.
+
+Definition map_result (tr0 : list gcall) (s0 : seam) (r : seam * map_res) : gres (go_acpi_world * (N * N * option string)) :=
+  let '(s', res) := r in
+  let tr := map ev_idmap (firstn (N.to_nat (sk s' - sk s0)) (scalls s')) ++ tr0 in
+  match res with
+  | MOk hdr _ => GOk (W tr, (hdr, acpi_sizeof_SDTHeader, None))
+  | MMismatch hdr _ => GOk (W tr, (hdr, acpi_sizeof_SDTHeader, Some "errTableChecksumMismatch"%string))
+  | MErr => GOk (W tr, (0, acpi_sizeof_SDTHeader, Some "errMap"%string))
+  | MStray _ => GPanic
+  end.
+
+Lemma frame_of_trans a : a < two64 -> go_mm_FrameFromAddress a = page_of a.
+Proof. exact (page_of_trans a). Qed.
+
+Lemma n_idmap_cons c tr : n_idmap (ev_idmap c :: tr) = n_idmap tr + 1.
+Proof. destruct c as [[f sz] fl]. unfold n_idmap. cbn [ev_idmap filter is_idmap String.eqb Ascii.eqb Bool.eqb List.length]. lia. Qed.
+
+Lemma o_idmap_cons fail f sz fl tr :
+  o_idmap fail (GCall "identityMapFn" [GNum f; GNum sz; GNum fl] :: tr) =
+  (f, if fail (n_idmap tr) then Some "errMap"%string else None).
+Proof.
+  change (GCall "identityMapFn" [GNum f; GNum sz; GNum fl]) with (ev_idmap (f, sz, fl)).
+  unfold o_idmap. cbn [ev_idmap]. change (GCall "identityMapFn" [GNum f; GNum sz; GNum fl]) with (ev_idmap (f, sz, fl)).
+  rewrite n_idmap_cons. replace (n_idmap tr + 1 - 1) with (n_idmap tr) by lia. reflexivity.
+Qed.
+
+Theorem mapACPITable_is_translation : forall (m : mem) (fail : N -> bool) (s : seam) (tr0 : list gcall) (addr : N) (fuel : nat),
+  bytes_ok m -> addr < two64 -> sk s = n_idmap tr0 -> (N.to_nat two32 <= fuel)%nat ->
+  go_acpi_mapACPITable fuel (W tr0) addr (ld_of m) (o_idmap fail) = map_result tr0 s (mapACPITable m fail s addr).
+Proof.
+  intros m fail s tr0 addr fuel Hok Ha Hsk Hf.
+  unfold go_acpi_mapACPITable, mapACPITable, map_result, idmap. cbv zeta.
+  rewrite (frame_of_trans addr Ha).
+  cbn [set_f_world_trace f_world_trace W]. rewrite o_idmap_cons, <- Hsk.
+  destruct (fail (sk s)) eqn:Hf1; cbn [negb gerr_eqb sk scalls].
+  { replace (sk s + 1 - sk s) with 1 by lia. reflexivity. }
+  set (hpa := w64 (w64 (N.shiftl (page_of addr) PageShift) + N.land addr acpi_vmm_PageOffsetMask)).
+  replace (gw 64 (go_mm_Page_Address (page_of addr) + acpi_vmm_PageOffset addr)) with hpa.
+  2:{ unfold hpa, go_mm_Page_Address, acpi_vmm_PageOffset, PageShift. change (gw 64) with w64.
+      unfold w64. rewrite N.mod_mod by discriminate. reflexivity. }
+  rewrite gfld_rdle by exact Hok. change (N.to_nat 4) with (N.to_nat acpi_sizeof_SDT_Length).
+  destruct (rdle m (w64 (hpa + acpi_off_SDT_Length)) (N.to_nat acpi_sizeof_SDT_Length)) as [len|x] eqn:Hlen; [|reflexivity].
+  assert (Hl : len < two32).
+  { pose proof (rdle_lt m Hok _ _ _ Hlen) as Hv. rewrite N2Nat.id in Hv. exact Hv. }
+  rewrite gw64_small by (unfold two64, two32 in *; lia).
+  rewrite o_idmap_cons. cbn [negb].
+  change (GCall "identityMapFn" [GNum (page_of addr); GNum acpi_sizeof_SDTHeader; GNum acpi_vmm_FlagPresent])
+    with (ev_idmap (page_of addr, acpi_sizeof_SDTHeader, acpi_vmm_FlagPresent)).
+  rewrite n_idmap_cons, <- Hsk.
+  destruct (fail (sk s + 1)) eqn:Hf2; cbn [negb gerr_eqb sk scalls].
+  { replace (sk s + 1 + 1 - sk s) with 2 by lia. reflexivity. }
+  unfold W. rewrite validTable_is_translation; [|apply w64_lt|exact Hl|unfold two32 in *; lia].
+  destruct (validTable m hpa len) as [[|]|x]; cbn [sk scalls]; try replace (sk s + 1 + 1 - sk s) with 2 by lia; reflexivity.
+Qed.
+
+(** ---- enumerateTables: the translated loops in structured form ---- *)
+Definition Eres : Type := (go_acpi_world * option string)%type.
+Definition Vst : Type := (go_acpi_world * option string * N * N)%type.     (* world, err, header, hidden range index *)
+
+Definition mismatch_fmt : list N :=
+  [37; 115; 32; 97; 116; 32; 48; 120; 37; 49; 54; 120; 32; 37; 54; 120; 32; 91; 99; 104; 101; 99; 107; 115; 117; 109; 32;
+   109; 105; 115; 109; 97; 116; 99; 104; 59; 32; 115; 107; 105; 112; 112; 105; 110; 103; 93; 10].
+   (* "%s at 0x%16x %6x [checksum mismatch; skipping]\n" *)
+
+Definition push (w : go_acpi_world) (c : gcall) : go_acpi_world := set_f_world_trace w (c :: f_world_trace w).
+
+(** after a failed mapACPITable: report a checksum mismatch and go on with the next entry, or return the error *)
+Definition report_or_ret (ld : N -> N -> option N) (w : go_acpi_world) (err : option string) (header rng : N)
+  : gres (gctl Vst Eres) :=
+  if gerr_eqb err (Some "errTableChecksumMismatch"%string) then
+    match gfld ld 4 header acpi_off_SDT_Signature with None => GPanic | Some sg =>
+    match gfld ld 4 header acpi_off_SDT_Length with None => GPanic | Some len =>
+      GOk (GNext (push w (GCall "Fprintf" [GBytes mismatch_fmt; GNum sg; GNum header; GNum len]), err, header, rng + 1))
+    end end
+  else GOk (GRet (w, err)).
+
+(** the DSDT step after a FADT *)
+Definition dsdt_gstep (fuel : nat) (ld : N -> N -> option N) (o : list gcall -> N * option string)
+  (w : go_acpi_world) (dsdt rng : N) : gres (gctl Vst Eres) :=
+  match go_acpi_mapACPITable fuel w dsdt ld o with
+  | GPanic => GPanic | GFuel => GFuel
+  | GOk (w, (h, _, e)) =>
+    if negb (gerr_eqb e None) then report_or_ret ld w e h rng
+    else match gfld ld 4 h acpi_off_SDT_Signature with None => GPanic | Some sg =>
+         GOk (GNext (push w (GCall "tableMap.set" [GNum sg; GNum h]), e, h, rng + 1)) end
+  end.
+
+(** body of [for _, addr := range sdtAddresses] *)
+Definition visit_gstep (fuel : nat) (ld : N -> N -> option N) (o : list gcall -> N * option string)
+  (acpiRev : N) (addrs : list N) : Vst -> gres (gctl Vst Eres) :=
+  fun st => let '(w, err, header, rng) := st in
+  if rng <? glen addrs then
+    match gidx addrs rng with None => GPanic | Some addr =>
+    match go_acpi_mapACPITable fuel w addr ld o with
+    | GPanic => GPanic | GFuel => GFuel
+    | GOk (w, (h, _, e)) =>
+      if negb (gerr_eqb e None) then report_or_ret ld w e h rng
+      else match gfld ld 4 h acpi_off_SDT_Signature with None => GPanic | Some sg =>
+        let w := push w (GCall "tableMap.set" [GNum sg; GNum h]) in
+        if sg =? acpi_fadtSignature then
+          match gfld ld 4 h acpi_off_FADT_Dsdt with None => GPanic | Some d32 =>
+          if acpi_acpiRev2Plus <=? acpiRev then
+            match gfld ld 8 h acpi_off_FADT_Ext_Dsdt with None => GPanic | Some d64 =>
+            dsdt_gstep fuel ld o w (gw 64 d64) rng end
+          else dsdt_gstep fuel ld o w (gw 64 d32) rng
+          end
+        else GOk (GNext (w, e, h, rng + 1))
+        end
+    end end
+  else GOk (GBreak (w, err, header, rng)).
+
+(** body of the loop that reads the root table's entries ([wd] = 8 or 4 bytes each) *)
+Definition entries_gstep (ld : N -> N -> option N) (wd : N)
+  : go_acpi_world * N * N * list N -> gres (gctl (go_acpi_world * N * N * list N) Eres) :=
+  fun st => let '(w, curPtr, i, lst) := st in
+  if gslt 64 i (glen lst) then
+    match gload ld wd curPtr with None => GPanic | Some v =>
+    match gsets 64 lst i (gw 64 v) with None => GPanic | Some lst' =>
+      GOk (GNext (w, gw 64 (curPtr + wd), gw 64 (i + 1), lst')) end end
+  else GOk (GBreak (w, curPtr, i, lst)).
+
+Definition walk_form (fuel : nat) (ld : N -> N -> option N) (o : list gcall -> N * option string)
+  (w : go_acpi_world) (rsdt sizeofHeader acpiRev wd count : N) (err : option string) (header : N) : gres Eres :=
+  match gmake count with None => GPanic | Some zeros =>
+  match gloop fuel (entries_gstep ld wd) (w, gw 64 (rsdt + sizeofHeader), gw 64 0, zeros) with
+  | GPanic => GPanic | GFuel => GFuel
+  | GOk (inr r) => GOk r
+  | GOk (inl st) => let '(w, _, _, addrs) := st in
+    match gloop fuel (visit_gstep fuel ld o acpiRev addrs) (w, err, header, 0) with
+    | GPanic => GPanic | GFuel => GFuel
+    | GOk (inr r) => GOk r
+    | GOk (inl st) => let '(w, _, _, _) := st in GOk (w, None)
+    end
+  end end.
+
+Definition enum_form (fuel : nat) (w : go_acpi_world) (rsdt : N) (useXSDT : bool) (ld : N -> N -> option N)
+  (o : list gcall -> N * option string) : gres Eres :=
+  match go_acpi_mapACPITable fuel w rsdt ld o with
+  | GPanic => GPanic | GFuel => GFuel
+  | GOk (w, (header, sizeofHeader, err)) =>
+    if negb (gerr_eqb err None) then GOk (w, err)
+    else
+      let w := push w (GCall "tableMap.make" []) in
+      match gfld ld 1 header acpi_off_SDT_Revision with None => GPanic | Some acpiRev =>
+      match gfld ld 4 header acpi_off_SDT_Length with None => GPanic | Some len =>
+        let payload := gsub 32 len (gw 32 sizeofHeader) in
+        if Bool.eqb useXSDT true
+        then walk_form fuel ld o w rsdt sizeofHeader acpiRev 8 (N.shiftr payload 3) err header
+        else walk_form fuel ld o w rsdt sizeofHeader acpiRev 4 (N.shiftr payload 2) err header
+      end end
+  end.
+
+(** the regenerated enumerateTables IS this form (conversion) *)
+Lemma enum_unfold fuel w rsdt useXSDT ld o :
+  go_acpi_acpiDriver_enumerateTables fuel w rsdt useXSDT ld o = enum_form fuel w rsdt useXSDT ld o.
+Proof. reflexivity. Qed.
+
+(** ---- the model state a trace stands for ---- *)
+Definition abs_step (c : gcall) (s : state) : state :=
+  match c with
+  | GCall n args =>
+    if String.eqb n "identityMapFn" then
+      match args with
+      | [GNum f; GNum sz; GNum fl] => with_seam s (mkSeam (sk (st_seam s) + 1) ((f, sz, fl) :: scalls (st_seam s)))
+      | _ => s
+      end
+    else if String.eqb n "Fprintf" then
+      match args with
+      | [GBytes _; GNum sg; GNum a; GNum len] => log s (EvMismatch sg a len)
+      | _ => s
+      end
+    else if String.eqb n "tableMap.set" then
+      match args with
+      | [GNum k; GNum x] => register s k x
+      | _ => s
+      end
+    else if String.eqb n "tableMap.make" then mkState (st_seam s) (st_events s) []
+    else s
+  end.
+
+(** traces are most-recent-first: the oldest call acts first *)
+Definition abs (tr : list gcall) : state := fold_right abs_step state0 tr.
+
+Definition Inv (tr : list gcall) (s : state) : Prop := abs tr = s /\ sk (st_seam s) = n_idmap tr.
+
+Lemma abs_cons c tr : abs (c :: tr) = abs_step c (abs tr).
+Proof. reflexivity. Qed.
+
+Lemma n_idmap_other n args tr : String.eqb n "identityMapFn" = false -> n_idmap (GCall n args :: tr) = n_idmap tr.
+Proof. intros H. unfold n_idmap. cbn [filter is_idmap]. rewrite H. reflexivity. Qed.
+
+Lemma Inv_idmap tr s c : Inv tr s ->
+  Inv (ev_idmap c :: tr) (with_seam s (mkSeam (sk (st_seam s) + 1) (c :: scalls (st_seam s)))).
+Proof.
+  intros [Ha Hn]. destruct c as [[f sz] fl]. split.
+  - rewrite abs_cons, Ha. reflexivity.
+  - rewrite n_idmap_cons, <- Hn. reflexivity.
+Qed.
+
+Lemma Inv_log tr s fmt sg a len : Inv tr s ->
+  Inv (GCall "Fprintf" [GBytes fmt; GNum sg; GNum a; GNum len] :: tr) (log s (EvMismatch sg a len)).
+Proof.
+  intros [Ha Hn]. split.
+  - rewrite abs_cons, Ha. reflexivity.
+  - rewrite n_idmap_other by reflexivity. exact Hn.
+Qed.
+
+Lemma Inv_register tr s k x : Inv tr s -> Inv (GCall "tableMap.set" [GNum k; GNum x] :: tr) (register s k x).
+Proof.
+  intros [Ha Hn]. split.
+  - rewrite abs_cons, Ha. reflexivity.
+  - rewrite n_idmap_other by reflexivity. exact Hn.
+Qed.
+
+Lemma Inv_make tr s : Inv tr s -> st_tmap s = [] -> Inv (GCall "tableMap.make" [] :: tr) s.
+Proof.
+  intros [Ha Hn] Ht. split.
+  - rewrite abs_cons, Ha. destruct s as [sm ev tm]. cbn in Ht. subst tm. reflexivity.
+  - rewrite n_idmap_other by reflexivity. exact Hn.
+Qed.
+
+(** ---- one mapACPITable call, in terms of the invariant ---- *)
+Definition gmap (m : mem) (fail : N -> bool) (fuel : nat) (tr : list gcall) (addr : N) :=
+  go_acpi_mapACPITable fuel (W tr) addr (ld_of m) (o_idmap fail).
+
+Lemma map_step m fail fuel tr s addr : bytes_ok m -> addr < two64 -> (N.to_nat two32 <= fuel)%nat -> Inv tr s ->
+  match mapACPITable m fail (st_seam s) addr with
+  | (sm, MStray _) => gmap m fail fuel tr addr = GPanic
+  | (sm, MErr) => exists tr', gmap m fail fuel tr addr = GOk (W tr', (0, acpi_sizeof_SDTHeader, Some "errMap"%string)) /\
+                              Inv tr' (with_seam s sm)
+  | (sm, MOk hdr len) =>
+      exists tr', gmap m fail fuel tr addr = GOk (W tr', (hdr, acpi_sizeof_SDTHeader, None)) /\ Inv tr' (with_seam s sm) /\
+                  hdr < two64 /\ rdle m (w64 (hdr + acpi_off_SDT_Length)) (N.to_nat acpi_sizeof_SDT_Length) = Got len
+  | (sm, MMismatch hdr len) =>
+      exists tr', gmap m fail fuel tr addr = GOk (W tr', (hdr, acpi_sizeof_SDTHeader, Some "errTableChecksumMismatch"%string)) /\
+                  Inv tr' (with_seam s sm) /\
+                  hdr < two64 /\ rdle m (w64 (hdr + acpi_off_SDT_Length)) (N.to_nat acpi_sizeof_SDT_Length) = Got len
+  end.
+Proof.
+  intros Hok Ha Hf HI. unfold gmap.
+  rewrite (mapACPITable_is_translation m fail (st_seam s) tr addr fuel Hok Ha (proj2 HI) Hf).
+  unfold mapACPITable, idmap, map_result.
+  set (c1 := (page_of addr, acpi_sizeof_SDTHeader, acpi_vmm_FlagPresent)).
+  pose proof (Inv_idmap tr s c1 HI) as HI1.
+  cbv beta iota zeta. cbn [sk scalls].
+  destruct (fail (sk (st_seam s))); cbn [negb]; cbv beta iota.
+  { cbn [sk scalls]. replace (sk (st_seam s) + 1 - sk (st_seam s)) with 1 by lia.
+    eexists. split; [reflexivity|]. exact HI1. }
+  set (hpa := w64 (w64 (N.shiftl (page_of addr) PageShift) + N.land addr acpi_vmm_PageOffsetMask)).
+  destruct (rdle m (w64 (hpa + acpi_off_SDT_Length)) (N.to_nat acpi_sizeof_SDT_Length)) as [len|x] eqn:Hlen; [|reflexivity].
+  set (c2 := (page_of addr, len, acpi_vmm_FlagPresent)).
+  pose proof (Inv_idmap _ _ c2 HI1) as HI2. cbn [st_seam with_seam sk scalls] in HI2.
+  destruct (fail (sk (st_seam s) + 1)); cbn [negb]; cbv beta iota.
+  { cbn [sk scalls]. replace (sk (st_seam s) + 1 + 1 - sk (st_seam s)) with 2 by lia.
+    eexists. split; [reflexivity|]. destruct s; exact HI2. }
+  assert (Hh : hpa < two64) by apply w64_lt.
+  destruct (validTable m hpa len) as [[|]|x]; cbv beta iota; cbn [sk scalls];
+    try (replace (sk (st_seam s) + 1 + 1 - sk (st_seam s)) with 2 by lia;
+         eexists; split; [reflexivity|]; split; [destruct s; exact HI2|]; split; [exact Hh|exact Hlen]).
+  reflexivity.
+Qed.
+
+(** ---- one iteration of the walk ---- *)
+(** what a translated loop step must be, given what the model's step says *)
+Definition step_ok (res : gres (gctl Vst Eres)) (rng : N) (r : state * option init_res) : Prop :=
+  match r with
+  | (s1, None) => exists tr' e h, res = GOk (GNext (W tr', e, h, rng + 1)) /\ Inv tr' s1
+  | (s1, Some IErrMap) => exists tr', res = GOk (GRet (W tr', Some "errMap"%string)) /\ Inv tr' s1
+  | (s1, Some (IStray _)) => res = GPanic
+  | (s1, Some _) => False
+  end.
+
+Lemma sig_fld m hdr : bytes_ok m ->
+  gfld (ld_of m) 4 hdr acpi_off_SDT_Signature = match sig_of m hdr with Got v => Some v | Fault _ => None end.
+Proof. intros Hok. rewrite gfld_rdle by exact Hok. reflexivity. Qed.
+
+Lemma report_mismatch m tr s hdr len rng : bytes_ok m -> Inv tr s ->
+  rdle m (w64 (hdr + acpi_off_SDT_Length)) (N.to_nat acpi_sizeof_SDT_Length) = Got len ->
+  step_ok (report_or_ret (ld_of m) (W tr) (Some "errTableChecksumMismatch"%string) hdr rng) rng
+          (match sig_of m hdr with Fault a => (s, Some (IStray a)) | Got sg => (log s (EvMismatch sg hdr len), None) end).
+Proof.
+  intros Hok HI Hlen. unfold report_or_ret. cbn [gerr_eqb String.eqb Ascii.eqb Bool.eqb].
+  rewrite sig_fld by exact Hok. destruct (sig_of m hdr) as [sg|a]; [|reflexivity].
+  rewrite gfld_rdle by exact Hok. change (N.to_nat 4) with (N.to_nat acpi_sizeof_SDT_Length). rewrite Hlen.
+  cbn [step_ok]. eexists _, _, _. split; [reflexivity|]. apply Inv_log. exact HI.
+Qed.
+
+Lemma report_err m tr s h rng : Inv tr s ->
+  step_ok (report_or_ret (ld_of m) (W tr) (Some "errMap"%string) h rng) rng (s, Some IErrMap).
+Proof. intros HI. unfold report_or_ret. cbn. eexists. split; [reflexivity|exact HI]. Qed.
+
+Lemma dsdt_step m fail fuel tr s d rng : bytes_ok m -> d < two64 -> (N.to_nat two32 <= fuel)%nat -> Inv tr s ->
+  step_ok (dsdt_gstep fuel (ld_of m) (o_idmap fail) (W tr) d rng) rng
+          (let '(s2, e, _) := map_and_register m fail s d in (s2, e)).
+Proof.
+  intros Hok Hd Hf HI. unfold dsdt_gstep, map_and_register.
+  pose proof (map_step m fail fuel tr s d Hok Hd Hf HI) as Hm. unfold gmap in Hm.
+  destruct (mapACPITable m fail (st_seam s) d) as [sm [hdr len|hdr len| |a]].
+  - destruct Hm as (tr' & -> & HI' & Hh & Hlen). cbn [negb gerr_eqb].
+    rewrite sig_fld by exact Hok. destruct (sig_of m hdr) as [sg|a]; [|reflexivity].
+    cbn [step_ok]. eexists _, _, _. split; [reflexivity|]. apply Inv_register. exact HI'.
+  - destruct Hm as (tr' & -> & HI' & Hh & Hlen). cbn [negb gerr_eqb].
+    pose proof (report_mismatch m tr' (with_seam s sm) hdr len rng Hok HI' Hlen) as Hr.
+    destruct (sig_of m hdr); exact Hr.
+  - destruct Hm as (tr' & -> & HI'). cbn [negb gerr_eqb]. apply report_err. exact HI'.
+  - rewrite Hm. reflexivity.
+Qed.
+
+Lemma rdle_lt64 m n a v : bytes_ok m -> (n <= 8)%nat -> rdle m a n = Got v -> v < two64.
+Proof.
+  intros Hok Hn H. pose proof (rdle_lt m Hok _ _ _ H) as Hv.
+  assert (256 ^ N.of_nat n <= 256 ^ 8) by (apply N.pow_le_mono_r; lia).
+  change (256 ^ 8) with two64 in *. lia.
+Qed.
+
+Lemma visit_step m fail fuel tr s acpiRev addrs addr err header rng :
+  bytes_ok m -> addr < two64 -> (N.to_nat two32 <= fuel)%nat -> Inv tr s ->
+  rng < glen addrs -> gidx addrs rng = Some addr ->
+  step_ok (visit_gstep fuel (ld_of m) (o_idmap fail) acpiRev addrs (W tr, err, header, rng)) rng
+          (visit m fail acpiRev s addr).
+Proof.
+  intros Hok Ha Hf HI Hr Hg. unfold visit_gstep. cbv beta iota.
+  destruct (N.ltb_spec rng (glen addrs)) as [_|]; [|lia]. rewrite Hg.
+  unfold visit, map_and_register.
+  pose proof (map_step m fail fuel tr s addr Hok Ha Hf HI) as Hm. unfold gmap in Hm.
+  destruct (mapACPITable m fail (st_seam s) addr) as [sm [hdr len|hdr len| |a]].
+  - destruct Hm as (tr' & -> & HI' & Hh & Hlen). cbn [negb gerr_eqb].
+    rewrite sig_fld by exact Hok. destruct (sig_of m hdr) as [sg|a]; [|reflexivity].
+    cbv zeta.
+    pose proof (Inv_register tr' _ sg hdr HI') as HI''.
+    destruct (sg =? acpi_fadtSignature).
+    + unfold dsdt_pointer. rewrite gfld_rdle by exact Hok. change (N.to_nat 4) with (N.to_nat acpi_sizeof_FADT_Dsdt).
+      destruct (rdle m (w64 (hdr + acpi_off_FADT_Dsdt)) (N.to_nat acpi_sizeof_FADT_Dsdt)) as [d32|a] eqn:Hd32; [|reflexivity].
+      destruct (acpi_acpiRev2Plus <=? acpiRev).
+      * rewrite gfld_rdle by exact Hok. change (N.to_nat 8) with (N.to_nat acpi_sizeof_FADT_Ext_Dsdt).
+        destruct (rdle m (w64 (hdr + acpi_off_FADT_Ext_Dsdt)) (N.to_nat acpi_sizeof_FADT_Ext_Dsdt)) as [d64|a] eqn:Hd64; [|reflexivity].
+        assert (Hd : d64 < two64) by (eapply rdle_lt64; [exact Hok| |exact Hd64]; vm_compute; lia).
+        rewrite gw64_small by exact Hd.
+        apply (dsdt_step m fail fuel _ _ d64 rng Hok Hd Hf HI'').
+      * assert (Hd : d32 < two64) by (eapply rdle_lt64; [exact Hok| |exact Hd32]; vm_compute; lia).
+        rewrite gw64_small by exact Hd.
+        apply (dsdt_step m fail fuel _ _ d32 rng Hok Hd Hf HI'').
+    + cbn [step_ok]. eexists _, _, _. split; [reflexivity|exact HI''].
+  - destruct Hm as (tr' & -> & HI' & Hh & Hlen). cbn [negb gerr_eqb].
+    pose proof (report_mismatch m tr' (with_seam s sm) hdr len rng Hok HI' Hlen) as Hrep.
+    destruct (sig_of m hdr); exact Hrep.
+  - destruct Hm as (tr' & -> & HI'). cbn [negb gerr_eqb]. apply report_err. exact HI'.
+  - rewrite Hm. reflexivity.
+Qed.
+
+(** ---- the walk over the entries = [visit_all] ---- *)
+Lemma visit_loop m fail fuel acpiRev addrs : bytes_ok m -> (N.to_nat two32 <= fuel)%nat ->
+  Forall (fun a => a < two64) addrs ->
+  forall rest j tr s err header fu, skipn j addrs = rest -> (j + List.length rest = List.length addrs)%nat ->
+    Inv tr s -> (List.length rest < fu)%nat ->
+    match visit_all m fail acpiRev s rest with
+    | (s', IOk) => exists tr' e h,
+        gloop fu (visit_gstep fuel (ld_of m) (o_idmap fail) acpiRev addrs) (W tr, err, header, N.of_nat j) =
+        GOk (inl (W tr', e, h, N.of_nat (List.length addrs))) /\ Inv tr' s'
+    | (s', IErrMap) => exists tr',
+        gloop fu (visit_gstep fuel (ld_of m) (o_idmap fail) acpiRev addrs) (W tr, err, header, N.of_nat j) =
+        GOk (inr (W tr', Some "errMap"%string)) /\ Inv tr' s'
+    | (s', IStray _) =>
+        gloop fu (visit_gstep fuel (ld_of m) (o_idmap fail) acpiRev addrs) (W tr, err, header, N.of_nat j) = GPanic
+    | (s', IErrChecksum) => False
+    end.
+Proof.
+  intros Hok Hf Hall rest. induction rest as [|a rest IH]; intros j tr s err header fu Hs Hj HI Hfu;
+    (destruct fu as [|fu]; [cbn in Hfu; lia|]).
+  - cbn [visit_all]. cbn [List.length] in Hj. replace j with (List.length addrs) by lia.
+    eexists _, _, _. split; [|exact HI]. apply gloop_fin.
+    unfold visit_gstep. cbv beta iota. unfold glen. rewrite N.ltb_irrefl. reflexivity.
+  - cbn [visit_all List.length] in *. destruct (skipn_cons_nth _ _ _ _ Hs) as [Hn Hs'].
+    assert (Ha : a < two64).
+    { rewrite Forall_forall in Hall. apply Hall. eapply nth_error_In. exact Hn. }
+    pose proof (visit_step m fail fuel tr s acpiRev addrs a err header (N.of_nat j) Hok Ha Hf HI
+                  ltac:(unfold glen; lia) ltac:(unfold gidx; rewrite Nat2N.id; exact Hn)) as Hst.
+    destruct (visit m fail acpiRev s a) as [s1 [e|]]; cbn [step_ok] in Hst.
+    + destruct e as [| | |x]; try contradiction.
+      * destruct Hst as (tr' & Hr & HI'). exists tr'. split; [|exact HI']. apply gloop_fin. rewrite Hr. reflexivity.
+      * apply gloop_fin. rewrite Hst. reflexivity.
+    + destruct Hst as (tr' & e & h & Hr & HI'). rewrite (gloop_next _ _ _ _ Hr).
+      replace (N.of_nat j + 1) with (N.of_nat (S j)) by lia.
+      apply IH; [exact Hs'|lia|exact HI'|lia].
+Qed.
+
+(** ---- reading the entries = [read_entries] ---- *)
+Lemma gslt_small a b : a < 9223372036854775808 -> b < 9223372036854775808 -> gslt 64 a b = (a <? b).
+Proof.
+  intros Ha Hb. unfold gslt, gsbias. change (2 ^ (64 - 1)) with 9223372036854775808.
+  change (2 ^ 64) with 18446744073709551616. rewrite !N.mod_small by lia.
+  destruct (N.ltb_spec (a + 9223372036854775808) (b + 9223372036854775808)); destruct (N.ltb_spec a b); try reflexivity; lia.
+Qed.
+
+Lemma entries_loop m tr start w count fuel : bytes_ok m -> start < two64 -> (w = 4 \/ w = 8)%nat ->
+  count < two32 -> (N.to_nat count < fuel)%nat ->
+  match read_entries m start w count with
+  | Got addrs => exists p, gloop fuel (entries_gstep (ld_of m) (N.of_nat w)) (W tr, start, gw 64 0, repeat 0 (N.to_nat count)) =
+                           GOk (inl (W tr, p, count, addrs)) /\ Forall (fun a => a < two64) addrs /\
+                           List.length addrs = N.to_nat count
+  | Fault _ => gloop fuel (entries_gstep (ld_of m) (N.of_nat w)) (W tr, start, gw 64 0, repeat 0 (N.to_nat count)) = GPanic
+  end.
+Proof.
+  intros Hok Hst Hw Hc Hf.
+  set (gstep := entries_gstep (ld_of m) (N.of_nat w)).
+  pose (Rel := fun (k : N) (s : N * list N) (g : go_acpi_world * N * N * list N) =>
+                 fst s < two64 /\ List.length (snd s) = N.to_nat k /\ Forall (fun a => a < two64) (snd s) /\
+                 g = (W tr, fst s, k, rev (snd s) ++ repeat 0 (N.to_nat (count - k)))).
+  pose (Q := fun (_ : N) (r : gres (go_acpi_world * N * N * list N + Eres)) => r = GPanic).
+  assert (Hstep : forall k s g, k < count -> Rel k s g ->
+    match entry_step m w s with
+    | inl s' => exists g', gstep g = GOk (GNext g') /\ Rel (k + 1) s' g'
+    | inr e => exists res, fin (gstep g) = Some res /\ Q e res
+    end).
+  { intros k [p acc] g Hk (Hp & Hl & Hacc & ->). cbn [fst snd] in *. unfold entry_step, gstep, entries_gstep. cbv beta iota.
+    assert (Hglen : glen (rev acc ++ repeat 0 (N.to_nat (count - k))) = count).
+    { unfold glen. rewrite app_length, rev_length, repeat_length, Hl. lia. }
+    rewrite Hglen, gslt_small by (unfold two32 in *; lia).
+    destruct (N.ltb_spec k count) as [_|]; [|lia].
+    rewrite gload_rdle by exact Hok. rewrite Nat2N.id.
+    destruct (rdle m p w) as [v|a] eqn:Hv.
+    - assert (Hv64 : v < two64) by (eapply rdle_lt64; [exact Hok| |exact Hv]; lia).
+      rewrite gw64_small by exact Hv64.
+      unfold gsets, gisneg. change (2 ^ (64 - 1)) with 9223372036854775808.
+      destruct (N.leb_spec 9223372036854775808 k) as [Hbig|_]; [unfold two32 in *; lia|].
+      unfold gset. rewrite Hglen. destruct (N.ltb_spec k count) as [_|]; [|lia].
+      eexists. split; [reflexivity|]. unfold Rel. cbn [fst snd]. split; [apply w64_lt|]. split; [cbn [List.length]; lia|].
+      split; [constructor; assumption|].
+      change (gw 64 (p + N.of_nat w)) with (w64 (p + N.of_nat w)).
+      rewrite (gw64_small (k + 1)) by (unfold two64, two32 in *; lia).
+      f_equal.
+      assert (Hk' : List.length (rev acc) = N.to_nat k) by (rewrite rev_length; exact Hl).
+      rewrite firstn_app, <- Hk', firstn_all, Nat.sub_diag. cbn [firstn]. rewrite app_nil_r.
+      rewrite skipn_app. replace (S (List.length (rev acc)) - List.length (rev acc))%nat with 1%nat by lia.
+      rewrite skipn_all2 by lia. cbn [app rev].
+      replace (N.to_nat (count - k)) with (S (N.to_nat (count - (k + 1)))) by lia.
+      cbn [repeat skipn]. rewrite <- app_assoc. reflexivity.
+    - eexists. split; reflexivity. }
+  pose proof (iter_gloop (entry_step m w) gstep Rel Q count Hstep count 0 (start, []) (W tr, start, gw 64 0, repeat 0 (N.to_nat count)) fuel
+                ltac:(lia)
+                ltac:(cbn [fst snd]; split; [exact Hst|]; split; [reflexivity|]; split; [constructor|]; rewrite N.sub_0_r; reflexivity)
+                ltac:(lia)) as H.
+  unfold read_entries.
+  destruct (iter_N (entry_step m w) count (start, [])) as [[p acc]|e].
+  - destruct H as (g' & (Hp & Hl & Hacc & ->) & ->). cbn [fst snd] in *.
+    exists p. split; [|split; [apply Forall_rev; exact Hacc|rewrite rev_length, Hl; lia]].
+    destruct (fuel - N.to_nat count)%nat as [|f] eqn:Ef; [lia|].
+    apply gloop_fin. unfold gstep, entries_gstep. cbv beta iota.
+    replace (N.to_nat (count - (0 + count))) with 0%nat by lia. cbn [repeat]. rewrite app_nil_r.
+    assert (Hglen : glen (rev acc) = count) by (unfold glen; rewrite rev_length, Hl; lia).
+    rewrite Hglen, gslt_small by (unfold two32 in *; lia).
+    rewrite N.add_0_l, N.ltb_irrefl. reflexivity.
+  - unfold Q in H. exact H.
+Qed.
+
+(** ---- enumerateTables ---- *)
+Definition err_of (r : init_res) : option string :=
+  match r with
+  | IOk | IStray _ => None
+  | IErrChecksum => Some "errTableChecksumMismatch"%string
+  | IErrMap => Some "errMap"%string
+  end.
+
+Definition enum_ok (res : gres Eres) (r : state * init_res) : Prop :=
+  match r with
+  | (_, IStray _) => res = GPanic
+  | (s, r) => exists tr, res = GOk (W tr, err_of r) /\ abs tr = s
+  end.
+
+Lemma walk_is_translation m fail fuel tr s rsdt acpiRev w count err header :
+  bytes_ok m -> (N.to_nat two32 <= fuel)%nat -> Inv tr s -> (w = 4 \/ w = 8)%nat -> count < two32 ->
+  match read_entries m (w64 (rsdt + acpi_sizeof_SDTHeader)) w count with
+  | Fault a => walk_form fuel (ld_of m) (o_idmap fail) (W tr) rsdt acpi_sizeof_SDTHeader acpiRev (N.of_nat w) count err header = GPanic
+  | Got addrs =>
+      match visit_all m fail acpiRev s addrs with
+      | (_, IErrChecksum) => False
+      | r => enum_ok (walk_form fuel (ld_of m) (o_idmap fail) (W tr) rsdt acpi_sizeof_SDTHeader acpiRev (N.of_nat w) count err header) r
+      end
+  end.
+Proof.
+  intros Hok Hf HI Hw Hc. unfold walk_form.
+  unfold gmake. destruct (N.ltb_spec count (2 ^ 63)) as [_|Hbig].
+  2:{ change (2 ^ 63) with 9223372036854775808 in Hbig. unfold two32 in Hc. lia. }
+  change (gw 64 (rsdt + acpi_sizeof_SDTHeader)) with (w64 (rsdt + acpi_sizeof_SDTHeader)).
+  pose proof (entries_loop m tr (w64 (rsdt + acpi_sizeof_SDTHeader)) w count fuel Hok (w64_lt _) Hw Hc
+                ltac:(unfold two32 in *; lia)) as He.
+  destruct (read_entries m (w64 (rsdt + acpi_sizeof_SDTHeader)) w count) as [addrs|a].
+  2:{ rewrite He. reflexivity. }
+  destruct He as (p & -> & Hall & Hlen). cbv beta iota.
+  pose proof (visit_loop m fail fuel acpiRev addrs Hok Hf Hall addrs 0 tr s err header fuel eq_refl eq_refl HI
+                ltac:(unfold two32 in *; lia)) as Hv.
+  change (N.of_nat 0) with 0 in Hv.
+  destruct (visit_all m fail acpiRev s addrs) as [s' [| | |x]].
+  - destruct Hv as (tr' & e & h & -> & HI'). cbv beta iota. exists tr'. split; [reflexivity|exact (proj1 HI')].
+  - exact Hv.
+  - destruct Hv as (tr' & -> & HI'). exists tr'. split; [reflexivity|exact (proj1 HI')].
+  - cbn [enum_ok]. rewrite Hv. reflexivity.
+Qed.
+
+Theorem enumerateTables_is_translation : forall (m : mem) (fail : N -> bool) (rsdt : N) (useXSDT : bool) (fuel : nat),
+  bytes_ok m -> rsdt < two64 -> (N.to_nat two32 <= fuel)%nat ->
+  enum_ok (go_acpi_acpiDriver_enumerateTables fuel (W []) rsdt useXSDT (ld_of m) (o_idmap fail))
+          (enumerateTables m fail rsdt useXSDT).
+Proof.
+  intros m fail rsdt useXSDT fuel Hok Hr Hf. rewrite enum_unfold. unfold enum_form, enumerateTables.
+  assert (HI0 : Inv [] state0) by (split; reflexivity).
+  pose proof (map_step m fail fuel [] state0 rsdt Hok Hr Hf HI0) as Hm. unfold gmap in Hm.
+  destruct (mapACPITable m fail (st_seam state0) rsdt) as [sm [hdr len|hdr len| |a]].
+  - destruct Hm as (tr' & -> & HI' & Hh & Hlen). cbn [negb gerr_eqb].
+    assert (HI1 : Inv (GCall "tableMap.make" [] :: tr') (with_seam state0 sm)) by (apply Inv_make; [exact HI'|reflexivity]).
+    change (push (W tr') (GCall "tableMap.make" [])) with (W (GCall "tableMap.make" [] :: tr')).
+    rewrite gfld1. unfold rd8.
+    destruct (m (w64 (hdr + acpi_off_SDT_Revision))) as [rev|] eqn:Hrev; [|reflexivity].
+    rewrite (w8_byte m Hok _ _ Hrev).
+    rewrite gfld_rdle by exact Hok. change (N.to_nat 4) with (N.to_nat acpi_sizeof_SDT_Length). rewrite Hlen.
+    change (gsub 32 len (gw 32 acpi_sizeof_SDTHeader)) with (sub32 len acpi_sizeof_SDTHeader).
+    set (payload := sub32 len acpi_sizeof_SDTHeader).
+    assert (Hp : payload < two32) by apply w32_lt.
+    destruct useXSDT; cbn [Bool.eqb].
+    + assert (Hc : N.shiftr payload 3 < two32).
+      { rewrite N.shiftr_div_pow2. change (2 ^ 3) with 8. unfold two32 in *. lia. }
+      pose proof (walk_is_translation m fail fuel _ _ rsdt rev 8%nat (N.shiftr payload 3) None hdr Hok Hf HI1
+                    (or_intror eq_refl) Hc) as Hw.
+      change (N.of_nat 8) with 8 in Hw.
+      destruct (read_entries m (w64 (rsdt + acpi_sizeof_SDTHeader)) 8 (N.shiftr payload 3)) as [addrs|a].
+      * destruct (visit_all m fail rev (with_seam state0 sm) addrs) as [s' [| | |x]]; try exact Hw. contradiction.
+      * cbn [enum_ok]. exact Hw.
+    + assert (Hc : N.shiftr payload 2 < two32).
+      { rewrite N.shiftr_div_pow2. change (2 ^ 2) with 4. unfold two32 in *. lia. }
+      pose proof (walk_is_translation m fail fuel _ _ rsdt rev 4%nat (N.shiftr payload 2) None hdr Hok Hf HI1
+                    (or_introl eq_refl) Hc) as Hw.
+      change (N.of_nat 4) with 4 in Hw.
+      destruct (read_entries m (w64 (rsdt + acpi_sizeof_SDTHeader)) 4 (N.shiftr payload 2)) as [addrs|a].
+      * destruct (visit_all m fail rev (with_seam state0 sm) addrs) as [s' [| | |x]]; try exact Hw. contradiction.
+      * cbn [enum_ok]. exact Hw.
+  - destruct Hm as (tr' & -> & HI' & _). cbn [negb gerr_eqb]. exists tr'. split; [reflexivity|exact (proj1 HI')].
+  - destruct Hm as (tr' & -> & HI'). cbn [negb gerr_eqb]. exists tr'. split; [reflexivity|exact (proj1 HI')].
+  - cbn [enum_ok]. rewrite Hm. reflexivity.
 Qed.
